@@ -218,7 +218,9 @@ def serve_proxy_io(proxy_channelX: Channel) -> None:
 
     def control(data: int) -> None:
         if data == RIO_WAIT:
-            control_chan.send(sub_io.wait())
+            # waiting can take arbitrarily long: do it outside the receiver
+            # thread, a later RIO_KILL must still get through
+            execmodel.start(lambda: control_chan.send(sub_io.wait()))
         elif data == RIO_KILL:
             sub_io.kill()
             control_chan.send(None)
